@@ -116,7 +116,11 @@ class Exec:
         if kind == "gen":
             return (x for x in seq)
         if kind == "dictkeys":
-            return dict.fromkeys(seq).keys()
+            try:
+                return dict.fromkeys(seq).keys()
+            except TypeError:
+                # the harness itself may not hash what is unhashable
+                return tuple(seq)
         if kind == "reversed2":
             return reversed(list(reversed(seq)))
         if isinstance(kind, str) and kind.startswith("gen_raises:"):
@@ -282,8 +286,13 @@ class Exec:
     # -- builders ------------------------------------------------------------
     def op_adj_dict(self, op):
         adj = {}
+        clusters = op.get("clusters") or {}
         for key, vals in op["adj"]:
-            adj[self.g(key)] = self.as_kind(self.gs(vals), op.get("vals_as"))
+            if key in clusters:
+                # the value is a universe object that is iterable over its members
+                adj[self.g(key)] = self.g(clusters[key])
+            else:
+                adj[self.g(key)] = self.as_kind(self.gs(vals), op.get("vals_as"))
         kw = {}
         if op.get("cls") is not None:
             kw["linktype"] = C.EDGE_CLASSES[op["cls"]]
